@@ -520,15 +520,16 @@ Fixpoint depth_nonneg (s : bytes) (d : N) : bool :=
   end.
 
 (* (2) whenever the pre-pass cancels a `not` against the previous one, the two are directly adjacent
-   (only white-space between them); ln = the pre-pass's last_not, pp = a parenthesis was passed since *)
-Fixpoint not_adj (ts : list tok) (ln pp : bool) : bool :=
+   (only white-space between them): a `not` that directly follows a parenthesis is never met with the
+   pre-pass's last_not flag set; ln = that flag *)
+Fixpoint not_adj (ts : list tok) (ln : bool) : bool :=
   match ts with
   | [] => true
-  | TNOT :: r => if ln then negb pp && not_adj r false false else not_adj r true false
-  | TLP :: r | TRP :: r => not_adj r ln true
-  | _ :: r => not_adj r false false
+  | TNOT :: r => not_adj r (negb ln)
+  | TLP :: r | TRP :: r => (match r with TNOT :: _ => negb ln | _ => true end) && not_adj r ln
+  | _ :: r => not_adj r false
   end.
-Definition not_cancel_adjacent (s : bytes) : bool := not_adj (toks (items s)) false false.
+Definition not_cancel_adjacent (s : bytes) : bool := not_adj (toks (items s)) false.
 
 (* (3) a closing parenthesis is never directly followed by a word character *)
 Definition is_wordch (c : N) : bool := negb (c =? 40) && negb (c =? 41) && negb (is_cspace c).
